@@ -455,6 +455,9 @@ def run(ctx):
     for c in cases:
         r = byid[c['id']]
         ctx.count('%s' % c['fn']); ctx.count('class=' + c['cls']); ctx.count('d=%d' % len(c['shape']))
+        if c['cls'] == 'ulp':
+            a = corner_adz(c['pat'], c['ps'])
+            ctx.count('ulp: float ad-mixed frequency at the all-ones corner ' + ('> 1' if a > 1 else '< 1' if a < 1 else '= 1'))
         ctx.case(signature=None if (c['op'] in ('pulse', 'cons') and all(p == 0 for p in c['ps']) and NPROPS[c['fn']] > 0) else
                  json.dumps(strip(c), sort_keys=True),
                  sample={'fn': c['fn'], 'shape': c['shape'], 'grid0': (c['grids'] or [[]])[0], 'ps': c['ps'], 'cls': c['cls'], 'raised': r['raised'],
@@ -487,7 +490,6 @@ def run(ctx):
            'Import ListNotations.\nOpen Scope Q_scope.')
     results = ctx.coq_cases('corr', hdr, exprs, '(mcheck %s)' % q(TOL), 'rel 1e-10 of max |entry|', shard=ctx.pick(10, 24), timeout=1500)
     nbad = 0
-    anyviol = bool(ctx.violations)
     for c in cases:
         if c['id'] not in dict(exprs):
             continue
@@ -497,7 +499,9 @@ def run(ctx):
                        '' if ok else 'model != impl (coq result %r)' % (rr,))
         if not ok:
             nbad += 1
-            if nbad <= 3 and not any(v['key'] is None for v in ctx.violations):
+            if nbad <= 3 and not any(v['key'] is None and not v['no_input'] for v in ctx.violations):
                 ctx.violation('%s (%s, proportions %r): the real code and the Coq model of PhiManip disagree; no clause of the property failed on any generated input' % (
                     c['fn'], c['cls'], c['ps']), data={'case': strip(c), 'impl': byid[c['id']], 'coq': rr}, no_input=True,
                     broken='correspondence %s' % c['fn'])
+    # findings that carry a key (candidates for known_findings.json) are listed after everything else
+    ctx.violations.sort(key=lambda v: 0 if v['key'] is None else 1)
